@@ -216,7 +216,9 @@ def nested_cases(rng, n):
         nc, elo, ehi, sz = [], [], [], []
         mono = rng.random() < 0.6
         for l in range(nl):
-            m = rng.randint(1, 7)
+            # real domains: the first inner list is at least as long as the outer domain (its
+            # descriptor list is what the outer search of Bisection2D indexes)
+            m = rng.randint(nl + 1, nl + 6) if l == 0 else rng.randint(1, 7)
             counts = sorted(rng.sample(range(1 + l, 40 + l), m))
             nc.append(counts)
             if mono:
@@ -241,7 +243,8 @@ def nested_cases(rng, n):
 def check_nested_predicate(ctx, kind, args, out_r, tr_r):
     """C01/C02/C05 sentences on the real nested-search result."""
     if not out_r.startswith("selected"):
-        if not (out_r == "ValueError" or out_r.startswith("raise ZeroDivisionError") or out_r.startswith("raise IndexError")):
+        zero = any(v == 0 for t in (args[1], args[2]) for lst in t for v in lst)
+        if not (out_r == "ValueError" or (out_r.startswith("raise ZeroDivisionError") and zero)):
             ctx.finding(f"{kind}-exception-type", f"{kind} ended with {out_r}", {"kind": kind, "args": args, "real": out_r, "trace": tr_r})
         return
     nc, elo, ehi = args[0], args[1], args[2]
